@@ -29,7 +29,9 @@ Record attrs := {
   a_oid : option N;               (* ORIGINATOR_ID *)
   a_llgr : bool;                  (* carries the LLGR_STALE community *)
   a_nollgr : bool;                (* carries the NO_LLGR community *)
-  a_mm : option N                 (* EVPN MAC-mobility sequence number *)
+  a_mm : option N;                (* EVPN MAC-mobility sequence number *)
+  a_orig : N                      (* Arc::as_ptr of the attributes as received, before import policy
+                                     (original_attr; the same block when policy changed nothing) *)
 }.
 
 Record src := {
@@ -703,6 +705,22 @@ Definition v_change (fl : flagmap) (c : change) : val :=
 Definition rs_local (peer : N) (d : dest) : option entry :=
   find (fun e => (s_role (e_src e) =? 1) && negb (from_addr peer e) && eligible e) (d_entries d).
 
+(* Table::adj_in_paths: the paths received from one peer (Adj-RIB-In view),
+   with or without the ones import policy rejected *)
+Definition adj_in (peer : N) (with_filtered : bool) (d : dest) : list entry :=
+  filter (fun e => from_addr peer e && (with_filtered || negb (e_filtered e))) (d_entries d).
+
+(* Table::collect_adj_in_paths, one destination: the input of a soft reset *)
+Definition soft_in (fl : flagmap) (peer : N) (include_stale : bool) (d : dest) : list entry :=
+  filter (fun e => from_addr peer e && (include_stale || negb (is_stale fl e))) (d_entries d).
+
+Definition v_adj (e : entry) : val :=
+  VL [VN (e_rpid e); VN (s_tok (e_src e)); VN (a_orig (e_attr e)); VB (e_filtered e)].
+Definition v_soft (e : entry) : val :=
+  VL [VN (e_rpid e); VN (s_tok (e_src e)); VOpt VN (e_nh e); VN (a_orig (e_attr e))].
+Definition v_limited (fl : flagmap) (c : change) : val :=
+  VL [VN (c_net c); VList (v_entry fl) (c_paths c)].
+
 (* Table::destinations(Global, enable_filtered = true): every entry in rank
    order with its flags *)
 Definition v_dest (fl : flagmap) (nd : N * dest) : val :=
@@ -728,9 +746,19 @@ Definition v_state (t : table) (addrs ctrs : list N) : val :=
       (* Table::destinations(RsLocal(peer)): per peer, the best path among the
          other route-server clients' eligible paths, prefix by prefix *)
       VList (fun a => VL [VN a; VList (fun nd => match rs_local a (snd nd) with
-                                                 | Some e => VL [VN (fst nd); VN (s_tok (e_src e)); VN (a_tok (e_attr e))]
+                                                 | Some e => VL [VN (fst nd); VN (s_tok (e_src e)); VN (a_orig (e_attr e))]
                                                  | None => VL [VN (fst nd)]
-                                                 end) (t_dests t)]) addrs].
+                                                 end) (t_dests t)]) addrs;
+      (* read-only views: collect_loc_rib_paths_limited(1 / 2), destinations(AdjIn(peer))
+         without / with filtered paths, collect_adj_in_paths without / with stale paths *)
+      VL [VList (v_limited (t_flags t)) (loc_rib t (Some 1));
+          VList (v_limited (t_flags t)) (loc_rib t (Some 2));
+          VList (fun a => VL [VN a; VList (fun nd => VL [VN (fst nd);
+                                                         VList v_adj (adj_in a false (snd nd));
+                                                         VList v_adj (adj_in a true (snd nd));
+                                                         VList v_soft (soft_in (t_flags t) a false (snd nd));
+                                                         VList v_soft (soft_in (t_flags t) a true (snd nd))])
+                                         (t_dests t)]) addrs]].
 
 Fixpoint observe (t : table) (addrs ctrs : list N) (ops : list op) : list val :=
   match ops with
